@@ -100,6 +100,10 @@ func cmdVerify(args []string) {
 			if *verbose {
 				fmt.Printf("   %-10s %s [%s %dms]\n", o.Status, o.Name, o.Solver, o.Ms)
 			}
+			if o.Status == "vacuous" && !strings.HasSuffix(o.Name, "#cover.pre") {
+				fmt.Printf("   (unreachable return: %s)\n", o.Name)
+				continue
+			}
 			if o.Status != "discharged" && o.Status != "covered" {
 				bad++
 				fmt.Printf("   %-10s %s  [%s %dms] %s %s\n", o.Status, o.Name, o.Solver, o.Ms, o.Desc, o.File)
